@@ -45,10 +45,14 @@ pub enum HostileOp {
     MutatedOuter { ev: EvRef, mode: u8, seed: u32 },
     /// invitation built by `node` with its own openmls group. mode: 0 fresh random group id,
     /// 1 MLS group id of a group the victim holds (g), 2 as 1 + colliding nostr id, 3 malformed
-    /// content, 4 missing encoding tag
+    /// content, 4 missing encoding tag, 5 rumor without an id
     HostileWelcome { victim: usize, mode: u8, g: usize, seed: u32 },
     /// hand a hostile welcome / re-delivery of any welcome under a new wrapper id
     RewrappedWelcome { w: EvRef, seed: u32 },
+    /// the published key-package event (kind 443) of `owner`, damaged (tags, content, kind,
+    /// signer; see `damage_key_package`) and handed to this node's `parse_key_package` and, when
+    /// `use_in` is 1, to `add_members` of group g
+    HostileKeyPackage { owner: usize, mode: u8, seed: u32, g: usize, use_in: u8 },
 }
 
 pub fn short(h: &HostileOp) -> &'static str {
@@ -63,7 +67,131 @@ pub fn short(h: &HostileOp) -> &'static str {
         HostileOp::MutatedOuter { .. } => "mutated_outer",
         HostileOp::HostileWelcome { .. } => "hostile_welcome",
         HostileOp::RewrappedWelcome { .. } => "rewrapped_welcome",
+        HostileOp::HostileKeyPackage { .. } => "hostile_key_package",
     }
+}
+
+/// Strings that stress tag grammars: multi-byte characters straddling the byte offsets the
+/// parsers slice at, wrong case, wrong length, separators, control characters, oversize.
+pub const HOSTILE_STRINGS: &[&str] = &[
+    "", "0\u{20ac}01", "0\u{e9}001", "\u{1f600}01", "0x0001", "0X0001", "0x001", "0x00001", "0xzzzz", "0x0001\u{0}", " 0x0001", "0x\u{e9}01",
+    "1.0", "1.0\u{e9}", "\u{e9}", "\u{202e}", "0x000a,0xf2ee", "0xf2ee", "0x\u{e9}0", "0x", "0x000\u{e9}", "base64", "hex", "base64\n", "BASE64",
+    "\u{ff22}ase64", "wss://", "ws://\u{e9}", "0", "-1", "18446744073709551616", "\u{0}", "\u{1f600}\u{1f600}\u{1f600}\u{1f600}",
+];
+
+/// Damage a key-package event. Returns (kind, content, tags, sign with a foreign key).
+pub fn damage_key_package(e: &Event, mode: u8, rng: &mut crate::rng::Rng) -> (Kind, String, Vec<Tag>, bool) {
+    let mut kind = e.kind;
+    let mut content = e.content.clone();
+    let mut tags: Vec<Vec<String>> = e.tags.iter().map(|t| t.as_slice().to_vec()).collect();
+    let mut foreign = false;
+    let pool = |rng: &mut crate::rng::Rng| -> String {
+        if rng.chance(1, 12) {
+            "A".repeat(1 + rng.below(70_000) as usize)
+        } else {
+            HOSTILE_STRINGS[rng.below(HOSTILE_STRINGS.len() as u64) as usize].to_string()
+        }
+    };
+    let nt = tags.len().max(1) as u64;
+    match mode {
+        0 => {
+            // the value of one tag replaced
+            if let Some(t) = tags.get_mut(rng.below(nt) as usize) {
+                let v = pool(rng);
+                t.truncate(1);
+                t.push(v);
+            }
+        }
+        1 => {
+            // one value inside a multi-value tag replaced
+            if let Some(t) = tags.get_mut(rng.below(nt) as usize) {
+                if t.len() > 1 {
+                    let i = 1 + rng.below(t.len() as u64 - 1) as usize;
+                    t[i] = pool(rng);
+                }
+            }
+        }
+        2 => {
+            if !tags.is_empty() {
+                tags.remove(rng.below(nt) as usize);
+            }
+        }
+        3 => {
+            if let Some(t) = tags.get(rng.below(nt) as usize).cloned() {
+                let dup = vec![t[0].clone(), pool(rng)];
+                if rng.chance(1, 2) {
+                    tags.insert(0, dup);
+                } else {
+                    tags.push(dup);
+                }
+            }
+        }
+        4 => {
+            if let Some(t) = tags.get_mut(rng.below(nt) as usize) {
+                t.truncate(1);
+            }
+        }
+        5 => {
+            let idx: Vec<usize> = content.char_indices().map(|(i, _)| i).collect();
+            if !idx.is_empty() {
+                content.truncate(idx[rng.below(idx.len() as u64) as usize]);
+            }
+        }
+        6 => {
+            let mut b = content.into_bytes();
+            if !b.is_empty() {
+                let i = rng.below(b.len() as u64) as usize;
+                b[i] = b"ABCDEFGHabcdefgh0123456789+/=-_"[rng.below(31) as usize];
+            }
+            content = String::from_utf8_lossy(&b).to_string();
+        }
+        7 => {
+            if rng.chance(1, 2) {
+                content = pool(rng);
+            } else {
+                let idx: Vec<usize> = content.char_indices().map(|(i, _)| i).collect();
+                let at = if idx.is_empty() { 0 } else { idx[rng.below(idx.len() as u64) as usize] };
+                content.insert_str(at, ["\u{e9}", "\u{20ac}", "\u{1f600}", " ", "\n"][rng.below(5) as usize]);
+            }
+        }
+        8 => kind = [Kind::Custom(444), Kind::Custom(445), Kind::TextNote, Kind::Custom(10051)][rng.below(4) as usize],
+        9 => foreign = true,
+        10 => {
+            // damage below the transport encoding: the TLS structure itself
+            use base64::Engine;
+            let dec = base64::engine::general_purpose::STANDARD.decode(content.as_bytes()).ok().or_else(|| hex::decode(&content).ok());
+            if let Some(mut b) = dec {
+                match rng.below(4) {
+                    0 => {
+                        if !b.is_empty() {
+                            let i = rng.below(b.len() as u64) as usize;
+                            b[i] ^= 1 << rng.below(8);
+                        }
+                    }
+                    1 => {
+                        let n = rng.below(b.len().max(1) as u64) as usize;
+                        b.truncate(n);
+                    }
+                    2 => {
+                        let n = 1 + rng.below(40) as usize;
+                        b.extend(rng.bytes(n));
+                    }
+                    _ => {
+                        // a length prefix blown up
+                        if b.len() > 8 {
+                            let i = rng.below(b.len() as u64 - 4) as usize;
+                            b[i] = 0xff;
+                            b[i + 1] = 0xff;
+                        }
+                    }
+                }
+                content = base64::engine::general_purpose::STANDARD.encode(&b);
+            }
+        }
+        _ => {}
+    }
+    let tags: Vec<Tag> = tags.into_iter().filter_map(|t| Tag::parse(t).ok()).collect();
+    (kind, content, tags, foreign)
 }
 
 fn o(class: &'static str, text: impl Into<String>) -> Outcome {
@@ -523,6 +651,9 @@ pub fn exec(w: &mut World, step: &Step, h: HostileOp) -> Outcome {
                 }
                 let mut rumor = EventBuilder::new(Kind::MlsWelcome, content).tags(tags).build(attacker_pk);
                 rumor.ensure_id();
+                if mode == 5 {
+                    rumor.id = None;
+                }
                 // the attacker's own evil group must not linger under the victim's group id in
                 // the attacker's storage view used by the oracles: it is the attacker's problem
                 Ok(rumor)
@@ -539,6 +670,36 @@ pub fn exec(w: &mut World, step: &Step, h: HostileOp) -> Outcome {
                 }
                 Err(e) => o("err", e),
             }
+        }
+        HostileOp::HostileKeyPackage { owner, mode, seed, g, use_in } => {
+            let Some(base) = w.nodes.get(owner).and_then(|n| n.key_packages.last().cloned()) else { return o("skipped", "owner has no key package") };
+            let mut rng = crate::rng::Rng::new(seed as u64 ^ w.seed).fork(443);
+            let (kind, content, tags, foreign) = damage_key_package(&base, mode, &mut rng);
+            let keys = if foreign { Keys::generate() } else { w.nodes[owner].keys.clone() };
+            let ev = match EventBuilder::new(kind, content).tags(tags).custom_created_at(base.created_at).sign_with_keys(&keys) {
+                Ok(e) => e,
+                Err(e) => return o("skipped", format!("cannot sign: {e}")),
+            };
+            let parsed = with_mdk!(w.nodes[node].mdk(), m => m.parse_key_package(&ev).map(|_| ()).map_err(|e| e.to_string()));
+            w.probe(if parsed.is_ok() { "hostile_kp_parsed" } else { "hostile_kp_refused" });
+            let mut text = format!("damaged key package mode {mode}: parse -> {}", match &parsed { Ok(()) => "ok".to_string(), Err(e) => format!("Err({})", e.chars().take(90).collect::<String>()) });
+            let mut failed = parsed.is_err();
+            if use_in == 1 && w.is_active_member(node, g) && !w.has_pending_commit(node, g) {
+                if let Some(gid) = w.gid(g) {
+                    let r = with_mdk!(w.nodes[node].mdk(), m => {
+                        let r = m.add_members(&gid, std::slice::from_ref(&ev)).map(|_| ()).map_err(|e| e.to_string());
+                        if r.is_ok() {
+                            // not part of the run's history: withdraw it at once
+                            let _ = m.clear_pending_commit(&gid);
+                        }
+                        r
+                    });
+                    w.probe(if r.is_ok() { "hostile_kp_add_accepted" } else { "hostile_kp_add_refused" });
+                    text.push_str(&format!("; add_members -> {}", match &r { Ok(()) => "ok (withdrawn)".to_string(), Err(e) => format!("Err({})", e.chars().take(90).collect::<String>()) }));
+                    failed = r.is_err();
+                }
+            }
+            o(if failed { "err" } else { "ok" }, text)
         }
         HostileOp::RewrappedWelcome { w: wr, seed } => {
             let Some(pw) = w.w_index.get(&wr).map(|i| w.welcomes[*i].clone()) else { return o("skipped", "no welcome") };
